@@ -356,12 +356,75 @@ def run_shard(spec_, res):
         run_type(res, T, spec_, rng, sentinels)
         res.count("types_done")
         res.seen("types", T)
+    embedded_project_clones(res, rng, spec_["types"], 12 if spec_["tier"] == "quick" else 120)
     if spec_["shard"] == 0:
         run_containers(res, spec_, rng)
-        pass
     for name, msg in monitors.take_failures():
         res.violation(f"C17:ambient:{name}", msg, {"monitor": name})
     res.exhaustive = True
+
+
+def embedded_project_clones(res, rng, types, n):
+    """A project that sits inside a constructed MetaModule (every controller of its module exposed as a user-defined
+    controller) is cloned; the clone and the original - project AND MetaModule - are edited in turn."""
+    import rv.api as api
+    from rv.modules import MODULE_CLASSES
+    sp = spec.load()
+
+    def state(inner, mm):
+        return (snapshot.snap_project(inner), inner.read(), snapshot.snap_module(mm, "synth"), api.Synth(mm).read())
+
+    def scribble(mod, t):
+        for sc in t.controllers:
+            if sc.kind in ("range", "compact", "no_offset") and sc.attached:
+                try:
+                    setattr(mod, sc.name, rng.randint(sc.min, sc.max))
+                except Exception:
+                    pass
+            elif sc.kind == "bool":
+                setattr(mod, sc.name, not getattr(mod, sc.name))
+    for k in range(n):
+        T = rng.choice([x for x in types if x not in ("Output", "MetaModule")] or ["Amplifier"])
+        t = sp[T]
+        desc = {"scenario": "embedded-project-clone", "type": T}
+        res.case(("embedded-project-clone", T, k))
+        inner = api.Project()
+        mod = inner.new_module(MODULE_CLASSES[t.mtype])
+        mod >> inner.output
+        mm = api.m.MetaModule(project=inner)
+        cnt = min(96, len(t.controllers))
+        mm.user_defined_controllers = cnt
+        for i in range(cnt):
+            mm.mappings.values[i] = mm.Mapping((mod.index, i))
+        mm.update_user_defined_controllers()
+        try:
+            copy = inner.clone()
+        except Exception as e:
+            res.violation(f"C17:clone-raises:Project:{workload.exc_key(e)}", f"cloning a project embedded in a MetaModule raised {e!r}", desc)
+            continue
+        res.count("embedded_project_clone_pairs")
+        before = state(inner, mm)
+        try:
+            scribble(copy.modules[mod.index], t)
+            copy.name = "edited copy"
+            copy.initial_bpm = 77
+        except Exception as e:
+            res.violation(f"C17:leak:Project:embedded-clone:edit-raises:{type(e).__name__}", f"editing the clone of an embedded project raised {e!r}", desc)
+            continue
+        after = state(inner, mm)
+        if after != before:
+            where = ["project snapshot", "project bytes", "MetaModule snapshot", "MetaModule bytes"]
+            bad = [w for w, x, y in zip(where, before, after) if x != y]
+            res.violation("C17:leak:Project:embedded-clone:original-moved", f"editing every controller of the CLONE of a project embedded in a MetaModule ({T} exposed) changed the original: {bad}", desc)
+            continue
+        cb = (snapshot.snap_project(copy), copy.read())
+        # (controller edits of the ORIGINAL embedded module travel up into the constructed MetaModule along the mappings;
+        # that route is outside the statements, DESIGN decision 12 - the original is edited through everything else)
+        mod.name, mod.x, mod.y, mod.finetune = "edited", mod.x + 8, mod.y - 8, 17
+        inner.name = "edited original"
+        inner.initial_tpl = 9
+        if (snapshot.snap_project(copy), copy.read()) != cb:
+            res.violation("C17:leak:Project:embedded-clone:clone-moved", f"editing the original embedded project ({T}) changed its clone", desc)
 
 
 def finalize(merged, tier):
